@@ -69,8 +69,17 @@ def translate():
             var = loop.target.id
             if not (isinstance(st, ast.Assign) and len(st.targets) == 1 and is_col(st.targets[0], var)):
                 raise Unsupported("store is not jacmin[:, %s] = ..." % var)
+            # statements of solve() AFTER the block that (re)bind jacmin or call solve_main: a Jacobian adopted later would not be un-scaled
+            later = []
+            idx = solve.body.index(top)
+            for after in solve.body[idx + 1:]:
+                for n in ast.walk(after):
+                    if isinstance(n, ast.Name) and n.id == "jacmin" and isinstance(n.ctx, ast.Store):
+                        later.append("binds jacmin: " + ast.unparse(after)[:60])
+                    if isinstance(n, ast.Call) and ast.unparse(n.func) == "solve_main":
+                        later.append("calls solve_main: " + ast.unparse(after)[:60])
             return {"guard": ast.unparse(top.test), "loop": "for %s in %s" % (var, ast.unparse(loop.iter)), "entry": expr(st.value, var),
-                    "stmt": ast.unparse(st)}
+                    "stmt": ast.unparse(st), "later": sorted(set(later))}
     raise Unsupported("the store into jacmin is not inside a top-level if of solve()")
 
 
@@ -83,7 +92,9 @@ def regenerate(ctx=None):
                 "def jacUnscaleEntry {K : Type u} {μ : Type v} {ν : Type w} [Add K] [Sub K] [Mul K] [Div K] (J : μ → ν → K) (shift scale : ν → K) (r : μ) (i : ν) : K :=",
                 "  " + info["entry"], "",
                 "def jacUnscaleGuard : String := " + q(info["guard"]),
-                "def jacUnscaleLoop : String := " + q(info["loop"]), ""]
+                "def jacUnscaleLoop : String := " + q(info["loop"]),
+                "/-- statements of `solve` after the un-scaling block that bind `jacmin` again or start another run -/",
+                "def jacBoundAfterUnscale : List String := [%s]" % ", ".join(q(x) for x in info["later"]), ""]
     except Exception as exc:
         if ctx is not None:
             ctx.broke("gen:unscale-translator", repr(exc))
